@@ -59,6 +59,34 @@ IsTupleset(M, t, r) ==
   \E e \in RelDefs(M) : e.t = t /\ \E x \in SubRw(e.rw) : x.k = "ttu" /\ x.ts = r
 
 ---------------------------------------------------------------------------
+(* Structural model validity (C17): the rules of the documented model          *)
+(* validation that can be stated on the abstract model without the entry-point  *)
+(* / cycle analysis.  WriteAuthorizationModel may accept a model only if this   *)
+(* holds (necessary, not sufficient).                                           *)
+HasThis(rw) == \E x \in SubRw(rw) : x.k = "this"
+ValidModelBasic(M) ==
+  /\ \A i, j \in DOMAIN M.types : i # j => M.types[i] # M.types[j]
+  /\ \A e \in RelDefs(M) :
+       /\ e.t \in Types(M)
+       \* rewrites reference existing relations
+       /\ \A x \in SubRw(e.rw) :
+            /\ x.k = "computed" => HasRel(M, e.t, x.rel)
+            /\ x.k \in {"union", "inter"} => Len(x.ch) >= 1
+            /\ x.k = "ttu" =>
+                 /\ HasRel(M, e.t, x.ts)
+                 \* a tupleset relation is directly assignable only, to concrete objects only
+                 /\ Rw(M, e.t, x.ts).k = "this"
+                 /\ \A y \in Restr(M, e.t, x.ts) : y.rel = "" /\ ~y.wc
+                 \* the computed relation exists on at least one of the tupleset's types
+                 /\ \E y \in Restr(M, e.t, x.ts) : HasRel(M, y.t, x.rel)
+       \* type restrictions: present exactly when the rewrite has a direct assignment
+       /\ HasThis(e.rw) <=> (e.restr # <<>>)
+       /\ \A y \in SeqToSet(e.restr) :
+            /\ y.t \in Types(M)
+            /\ y.rel # "" => (HasRel(M, y.t, y.rel) /\ ~y.wc)
+            /\ y.cond # "" => HasCond(M, y.cond)
+
+---------------------------------------------------------------------------
 \* "Valid for the model in use" (read-time meaning): the object type and
 \* relation exist, the user matches one of the relation's type restrictions
 \* -- plain object type, typed wildcard or userset -- with exactly the
